@@ -1,3 +1,24 @@
+/-
+C03 for documents: on a single replica the JSON document behaves as a plain JSON tree (`Spec/PlainDoc`).
+All lemmas live in namespace `Orda.DP`.
+
+Contents
+* 1. fuel-free views: acyclicity (`∃ rk, DC.Ranked d rk`) is enough for the fuel `table.length + 1` (`crk`,
+  `viewOf_big`, `viewAt_obj`, `viewAt_arr`); reachability along child links (`Reach`), untouched subtrees keep
+  their view (`Safe`, `Same`, `safe_viewAt`); `locate_sub` and THE frame property `frame`: a change at a
+  located node shows in the root view exactly at its path.
+* 2. further facts about `createNode` (`createNode_spec2`: shape and linkage of the created nodes, `createNode_ok`:
+  a value without null is creatable).
+* 3. the invariant `DInv L b d` / `DocInv r`, and a generic step `Stp` (new nodes, a new kind for the node `hd`,
+  some children of `hd` buried or tombstoned) that preserves it (`Stp.next`, `Stp.next_keys`).
+* 4. the local operations as steps: `put_run`, `remove_run`, `insert_run`, `delete_run`, `upd1_run` + `update_loop`
+  (`update_run`).
+* 5. the public calls: `call_full` (effect on the replica `Eff` and refinement `Refines`, per call).
+* 6. the theorems asked for: `docInv_new`, `docInv_call`, `docInv_calls`, `doc_call_no_panic`, `doc_call_err_noop`,
+  `doc_call_ok_queues_one`, `doc_call_refines`, `doc_live_handle_has_path`, `doc_located_not_garbage`,
+  `doc_deleted_container_refused`.
+* 7. `DP.Ex`: a nested document, a handle below an array, `doc_call_refines` instantiated.
+-/
 import Orda.Spec.PlainDoc
 import Orda.Proofs.DocConv
 import Orda.Proofs.DocArr
@@ -1761,7 +1782,6 @@ theorem insert_run {L : OpId} {d : Doc} {hd : Ts} {pn : DNode} {slots : List (Ts
     congr 1
     apply List.filter_congr
     intro s hs
-    have := List.filter_congr (l := [s]) (p := slotLive (d.addAll ns)) (q := slotLive d)
     have hs' : s ∈ slots := by rw [e1]; exact List.mem_append_left _ hs
     unfold slotLive
     rw [DA.isTomb_addAll_old]
@@ -2669,5 +2689,1292 @@ theorem located_facts {L : OpId} {b : Nat} {d : Doc} (I : DInv L b d) {hd : Ts} 
   have := a1 1
   simp only [Doc.isGarbage, hpn, Bool.or_eq_false_iff] at this
   simp [Doc.isTomb, hpn, this.1]
+
+/-- what a call may do to the replica: refuse, read, or execute one operation -/
+def Eff (r : Replica) (d : Doc) (c : Call) : Prop :=
+  ((r.call c).1 = r ∧ ∃ e, (r.call c).2 = .err e) ∨ ((r.call c).1 = r ∧ ∃ v, (r.call c).2 = .ok v) ∨
+  ∃ d' b' bd v, r.call c = ({ r with opId := r.opId.next, state := .doc d', rbOps := r.rbOps ++ [⟨r.opId.next, bd⟩],
+                                     buffer := r.buffer ++ [Op.wire ⟨r.opId.next, bd⟩] }, .ok v) ∧
+    DInv r.opId b' d' ∧ (KeysND d → CallKeysND c → KeysND d')
+
+/-- the refinement statement for one call -/
+def Refines (r : Replica) (d : Doc) (c : Call) : Prop :=
+  ∀ (π : List PlainDoc.Seg) (hd : Ts), KeysND d → CallKeysND c → d.locate π Ts.oldest = some hd →
+    PlainDoc.handleOf c = some hd →
+    ∃ d', (r.call c).1.state = .doc d' ∧ d'.view.canon = (PlainDoc.step d.view.canon π c).1 ∧
+      PlainDoc.outCanon (r.call c).2 = (PlainDoc.step d.view.canon π c).2
+
+theorem eff_err {r : Replica} {d : Doc} {c : Call} {e : Nat} (h : r.call c = (r, .err e)) : Eff r d c :=
+  Or.inl ⟨by rw [h], e, by rw [h]⟩
+
+theorem eff_ok {r : Replica} {d : Doc} {c : Call} {v : Ret} (h : r.call c = (r, .ok v)) : Eff r d c :=
+  Or.inr (Or.inl ⟨by rw [h], v, by rw [h]⟩)
+
+/-- a call that leaves the replica alone refines the plain tree if the plain tree answers the same -/
+theorem refines_same {r : Replica} {d : Doc} {c : Call} {o : Outcome Ret} (hs : r.state = .doc d)
+    (hcall : r.call c = (r, o))
+    (hstep : ∀ (π : List PlainDoc.Seg) (hd : Ts), KeysND d → d.locate π Ts.oldest = some hd →
+      PlainDoc.handleOf c = some hd → PlainDoc.step d.view.canon π c = (d.view.canon, PlainDoc.outCanon o)) :
+    Refines r d c := by
+  intro π hd hk _ hloc hh
+  refine ⟨d, by rw [hcall]; exact hs, ?_, ?_⟩
+  · rw [hstep π hd hk hloc hh]
+  · rw [hcall, hstep π hd hk hloc hh]
+
+/-- the frame property in the form the plain tree uses -/
+theorem view_put {d d' : Doc} {hd : Ts} {TK : Ts → Prop} (hg : DG d) (hg' : DG d') (hs : Same d d' hd TK)
+    (hTK : ∀ x, TK x → ∃ n, d.find hd = some n ∧ x ∈ kids n.kind) (hhd : d'.isTomb hd = false)
+    {π : List PlainDoc.Seg} (hloc : d.locate π Ts.oldest = some hd) :
+    d'.view.canon = PlainDoc.put d.view.canon π (d'.viewAt hd).canon := by
+  have := frame hg hg' hs hTK hhd π Ts.oldest hloc
+  unfold PlainDoc.put
+  rw [view_eq_viewAt, view_eq_viewAt, this]
+  rfl
+
+theorem Stp.view_put {L : OpId} {b b' : Nat} {d d' : Doc} {hd : Ts} {pn : DNode} {K' : DKind} {ns : List DNode}
+    {bury tm : Ts → Option Ts} (h : Stp L b b' d hd pn K' ns bury tm d') (hg : DG d) (hg' : DG d')
+    (hlive : d.isTomb hd = false) {π : List PlainDoc.Seg} (hloc : d.locate π Ts.oldest = some hd) :
+    d'.view.canon = PlainDoc.put d.view.canon π (d'.viewAt hd).canon :=
+  DP.view_put hg hg' h.same (fun x hx => ⟨pn, h.hp, h.tk_kid x hx⟩) (by rw [h.isTomb_hd]; exact hlive) hloc
+
+/-! ### the kind of the node behind a handle and the shape of its view -/
+
+theorem kindOf_elem {d : Doc} {h : Ts} {pn : DNode} {v : JVal} (hf : d.find h = some pn) (hk : pn.kind = .elem v) :
+    d.kindOf h = .elem := by
+  obtain ⟨c, dd, p, k⟩ := pn
+  simp only at hk; subst hk
+  simp [Doc.kindOf, hf]
+
+theorem kindOf_none {d : Doc} {h : Ts} (hf : d.find h = none) : d.kindOf h = .elem := by
+  simp [Doc.kindOf, hf]
+
+theorem scalar_canon {v : JVal} (h : Scalar v) : v.canon = v ∧ (∀ kvs, v ≠ .obj kvs) ∧ ∀ l, v ≠ .arr l := by
+  cases v <;> simp_all [Scalar, JVal.canon]
+
+theorem garbage_kid {L : OpId} {b : Nat} {d : Doc} (I : DInv L b d) {hd c : Ts} {pn : DNode}
+    (hp : d.find hd = some pn) (hg : ∀ f, d.isGarbage f hd = false) (hc : c ∈ kids pn.kind) :
+    d.garbage c = d.isTomb c := by
+  obtain ⟨nc, hnc, hpar⟩ := I.wf.child hd pn hp c hc
+  simp [Doc.garbage, Doc.isGarbage, Doc.isTomb, hnc, hpar, hg]
+
+theorem validateRange_eq (sz pos n : Int) :
+    (⟨[], sz⟩ : Rga).validateRange pos n = if PlainDoc.inRange pos n sz then none else some Err.illegalParameters := by
+  unfold Rga.validateRange PlainDoc.inRange
+  by_cases h1 : pos < 0
+  · have : ¬ (0 ≤ pos) := by omega
+    simp [h1, this]
+  · by_cases h2 : n < 1
+    · have : ¬ (1 ≤ n) := by omega
+      simp [h1, h2, this]
+    · by_cases h3 : sz - 1 < pos
+      · have : ¬ (pos ≤ sz - 1) := by omega
+        simp [h1, h2, h3, this]
+      · by_cases h4 : pos + n > sz
+        · have : ¬ (pos + n ≤ sz) := by omega
+          simp [h1, h2, h3, h4, this]
+        · have a1 : 0 ≤ pos := by omega
+          have a2 : 1 ≤ n := by omega
+          have a3 : pos ≤ sz - 1 := by omega
+          have a4 : pos + n ≤ sz := by omega
+          simp [h1, h2, h3, h4, a1, a2, a3, a4]
+
+theorem validateInsert_eq (sz pos : Int) :
+    (⟨[], sz⟩ : Rga).validateInsert pos = if pos < 0 || pos > sz then some Err.illegalParameters else none := by
+  unfold Rga.validateInsert
+  by_cases h1 : pos < 0
+  · simp [h1]
+  · by_cases h2 : pos > sz
+    · simp [h1, h2]
+    · simp [h1, h2]
+
+theorem arrRga_eq {d : Doc} {h : Ts} {pn : DNode} {sl : List (Ts × Ts)} {s : Int} (hf : d.find h = some pn)
+    (hk : pn.kind = .arr sl s) : d.arrRga h = ⟨[], s⟩ := by
+  unfold Doc.arrRga
+  rw [DA.findArr_some_iff.mpr ⟨hf, hk⟩]
+
+theorem arrView_length (d : Doc) (sl : List (Ts × Ts)) : (arrView d sl).length = (sl.filter (slotLive d)).length := by
+  rw [arrView_eq]; simp
+
+/-- the array behind a handle: stored size = length of the visible list -/
+theorem arr_size {L : OpId} {b : Nat} {d : Doc} (I : DInv L b d) {h : Ts} {pn : DNode} {sl : List (Ts × Ts)} {s : Int}
+    (hf : d.find h = some pn) (hk : pn.kind = .arr sl s) : s = ((sl.filter (slotLive d)).length : Int) := by
+  have := I.sizes h pn hf
+  rw [hk] at this
+  exact this
+
+/-- everything known about a located handle -/
+structure Loc (d : Doc) (π : List PlainDoc.Seg) (hd : Ts) : Prop where
+  sub : PlainDoc.sub π d.view.canon = some (d.viewAt hd).canon
+  garbage : d.garbage hd = false
+  live : d.isTomb hd = false
+  anc : ∀ f, d.isGarbage f hd = false
+
+theorem loc_of {L : OpId} {b : Nat} {d : Doc} (I : DInv L b d) (hk : KeysND d) {π : List PlainDoc.Seg} {hd : Ts}
+    (h : d.locate π Ts.oldest = some hd) : Loc d π hd ∧ ∃ pn, d.find hd = some pn := by
+  obtain ⟨r1, r2⟩ := root_live I
+  obtain ⟨a1, _⟩ := located_live I π Ts.oldest h r1 r2
+  obtain ⟨g, l, pn, hpn⟩ := located_facts I h
+  exact ⟨⟨locate_sub (I.dg hk) π Ts.oldest h, g, l, a1⟩, pn, hpn⟩
+
+/-- the shape of the view of a node, by its kind -/
+theorem shape_elem {L : OpId} {b : Nat} {d : Doc} (I : DInv L b d) {h : Ts} {pn : DNode} {v : JVal}
+    (hf : d.find h = some pn) (hk : pn.kind = .elem v) :
+    (d.viewAt h).canon = v ∧ (∀ kvs, v ≠ .obj kvs) ∧ ∀ l, v ≠ .arr l := by
+  rw [viewAt_elem hf hk]
+  exact scalar_canon (I.scalar h pn v hf hk)
+
+theorem shape_obj {d : Doc} (hg : DG d) {h : Ts} {pn : DNode} {m : List (String × Ts)} {s : Int}
+    (hf : d.find h = some pn) (hk : pn.kind = .obj m s) :
+    (d.viewAt h).canon = .obj (JVal.canonKvs (objView d m)) := by
+  rw [viewAt_obj hg hf hk, canon_obj]
+
+theorem shape_arr {d : Doc} (hg : DG d) {h : Ts} {pn : DNode} {sl : List (Ts × Ts)} {s : Int}
+    (hf : d.find h = some pn) (hk : pn.kind = .arr sl s) :
+    (d.viewAt h).canon = .arr ((arrView d sl).map JVal.canon) := by
+  rw [viewAt_arr hg hf hk, canon_arr, canonList_eq_map]
+
+theorem kindOf_obj' {d : Doc} {h : Ts} {pn : DNode} {m : List (String × Ts)} {s : Int}
+    (hf : d.find h = some pn) (hk : pn.kind = .obj m s) : d.kindOf h = .obj := kindOf_obj.mpr ⟨pn, m, s, hf, hk⟩
+theorem kindOf_arr' {d : Doc} {h : Ts} {pn : DNode} {sl : List (Ts × Ts)} {s : Int}
+    (hf : d.find h = some pn) (hk : pn.kind = .arr sl s) : d.kindOf h = .arr := kindOf_arr.mpr ⟨pn, sl, s, hf, hk⟩
+
+/-! ### calls of other datatypes on a document: refused -/
+
+theorem full_other {r : Replica} {d : Doc} (hs : r.state = .doc d) (c : Call) (hh : PlainDoc.handleOf c = none) :
+    Eff r d c ∧ Refines r d c := by
+  refine ⟨?_, fun π hd _ _ _ h => by rw [hh] at h; cases h⟩
+  have herr : ∀ (b : OpBody) (post : Ret → Ret), c.prepare r.state = .op b post → b.isMeta = false →
+      execLocal r.state r.opId.next.ts b = .err Err.illegalOperation → Eff r d c :=
+    fun b post h1 h2 h3 => eff_err (call_of_err h1 h2 h3)
+  cases c with
+  | inc x => exact herr _ _ (by rw [hs]; rfl) rfl (by rw [hs]; rfl)
+  | mput k v =>
+    by_cases hkv : (k = "" || v.isNull) = true
+    · exact eff_err (call_of_done (o := .err Err.illegalParameters) (by rw [hs]; simp only [Call.prepare, hkv, if_true]))
+    · exact herr (.put k v) id (by rw [hs]; simp only [Call.prepare, hkv]; rfl) rfl (by rw [hs]; rfl)
+  | mremove k =>
+    by_cases hkv : k = ""
+    · exact eff_err (call_of_done (o := .err Err.illegalParameters) (by rw [hs]; simp only [Call.prepare, hkv, if_true]))
+    · exact herr (.remove k) id (by rw [hs]; simp only [Call.prepare, hkv]; rfl) rfl (by rw [hs]; rfl)
+  | mget k => exact eff_err (call_of_done (o := .err Err.illegalOperation) (by rw [hs]; rfl))
+  | msize => exact eff_err (call_of_done (o := .err Err.illegalOperation) (by rw [hs]; rfl))
+  | linsert p vs => exact eff_err (call_of_done (o := .err Err.illegalOperation) (by rw [hs]; rfl))
+  | ldelete p => exact eff_err (call_of_done (o := .err Err.illegalOperation) (by rw [hs]; rfl))
+  | ldeleteMany p n => exact eff_err (call_of_done (o := .err Err.illegalOperation) (by rw [hs]; rfl))
+  | lupdate p vs => exact eff_err (call_of_done (o := .err Err.illegalOperation) (by rw [hs]; rfl))
+  | lget p => exact eff_err (call_of_done (o := .err Err.illegalOperation) (by rw [hs]; rfl))
+  | lgetMany p n => exact eff_err (call_of_done (o := .err Err.illegalOperation) (by rw [hs]; rfl))
+  | lsize => exact eff_err (call_of_done (o := .err Err.illegalOperation) (by rw [hs]; rfl))
+  | dput h k v => simp [PlainDoc.handleOf] at hh
+  | dremove h k => simp [PlainDoc.handleOf] at hh
+  | dinsert h p vs => simp [PlainDoc.handleOf] at hh
+  | ddelete h p => simp [PlainDoc.handleOf] at hh
+  | ddeleteMany h p n => simp [PlainDoc.handleOf] at hh
+  | dupdate h p vs => simp [PlainDoc.handleOf] at hh
+  | dgetObj h k => simp [PlainDoc.handleOf] at hh
+  | dgetArr h p n => simp [PlainDoc.handleOf] at hh
+  | dvalue h => simp [PlainDoc.handleOf] at hh
+
+/-! ### reads -/
+
+theorem full_dvalue {L : OpId} {r : Replica} {d : Doc} (hs : r.state = .doc d) (I : DInv L 0 d) (h : Ts) :
+    Eff r d (.dvalue h) ∧ Refines r d (.dvalue h) := by
+  have hcall : r.call (.dvalue h) = (r, .ok (.val (some (d.viewAt h)))) :=
+    call_of_done (by rw [hs]; rfl)
+  refine ⟨eff_ok hcall, refines_same hs hcall ?_⟩
+  intro π hd hk hloc hh
+  simp only [PlainDoc.handleOf, Option.some.injEq] at hh
+  subst hh
+  obtain ⟨loc, _⟩ := loc_of I hk hloc
+  simp only [PlainDoc.step, loc.sub, PlainDoc.outCanon, PlainDoc.retCanon]
+
+theorem full_dgetObj {L : OpId} {r : Replica} {d : Doc} (hs : r.state = .doc d) (I : DInv L 0 d) (h : Ts) (k : String) :
+    Eff r d (.dgetObj h k) ∧ Refines r d (.dgetObj h k) := by
+  have hprep : (Call.dgetObj h k).prepare r.state = (Call.dgetObj h k).prepareDoc d := by rw [hs]; rfl
+  by_cases hkind : d.kindOf h = .obj
+  · obtain ⟨pn, m, s, hf, hkd⟩ := kindOf_obj.mp hkind
+    have hfo := findObj_some_iff.mpr ⟨hf, hkd⟩
+    have hcall : ∃ o, r.call (.dgetObj h k) = (r, .ok (.val o)) ∧
+        o = (alFind k m).bind (fun c => if d.garbage c then none else some (d.viewAt c)) := by
+      cases hk : alFind k m with
+      | none =>
+        exact ⟨none, call_of_done (by rw [hprep]; simp [Call.prepareDoc, Doc.assertLocal, hkind, hfo, hk]), rfl⟩
+      | some c =>
+        by_cases hg : d.garbage c = true
+        · exact ⟨none, call_of_done (by rw [hprep]; simp [Call.prepareDoc, Doc.assertLocal, hkind, hfo, hk, hg]),
+            by simp [hg]⟩
+        · exact ⟨some (d.viewAt c),
+            call_of_done (by rw [hprep]; simp [Call.prepareDoc, Doc.assertLocal, hkind, hfo, hk, hg]), by simp [hg]⟩
+    obtain ⟨o, hcall, ho⟩ := hcall
+    refine ⟨eff_ok hcall, refines_same hs hcall ?_⟩
+    intro π hd hkeys hloc hh
+    simp only [PlainDoc.handleOf, Option.some.injEq] at hh
+    subst hh
+    obtain ⟨loc, _⟩ := loc_of I hkeys hloc
+    have hg := I.dg hkeys
+    have hsub := loc.sub
+    rw [shape_obj hg hf hkd] at hsub
+    simp only [PlainDoc.step, hsub, PlainDoc.outCanon]
+    rw [alFind_canonKvs, objView_find (hkeys h pn m s hf hkd), ho]
+    cases hk : alFind k m with
+    | none => rfl
+    | some c =>
+      have := garbage_kid I hf loc.anc (by rw [hkd]; exact alFind_mem_vals hk)
+      simp only [Option.bind_some, this]
+      by_cases ht : d.isTomb c = true <;> simp [ht, PlainDoc.retCanon]
+  · have hcall : r.call (.dgetObj h k) = (r, .err Err.invalidParent) :=
+      call_of_done (by rw [hprep]; simp [Call.prepareDoc, Doc.assertLocal, hkind])
+    refine ⟨eff_err hcall, refines_same hs hcall ?_⟩
+    intro π hd hkeys hloc hh
+    simp only [PlainDoc.handleOf, Option.some.injEq] at hh
+    subst hh
+    obtain ⟨loc, pn, hf⟩ := loc_of I hkeys hloc
+    have hg := I.dg hkeys
+    have hsub := loc.sub
+    cases hkd : pn.kind with
+    | elem v =>
+      obtain ⟨e1, e2, e3⟩ := shape_elem I hf hkd
+      rw [e1] at hsub
+      simp only [PlainDoc.step, hsub, PlainDoc.outCanon]
+    | obj m s => exact absurd (kindOf_obj' hf hkd) hkind
+    | arr sl s =>
+      rw [shape_arr hg hf hkd] at hsub
+      simp only [PlainDoc.step, hsub, PlainDoc.outCanon]
+
+theorem full_dgetArr {L : OpId} {r : Replica} {d : Doc} (hs : r.state = .doc d) (I : DInv L 0 d) (h : Ts) (pos n : Int) :
+    Eff r d (.dgetArr h pos n) ∧ Refines r d (.dgetArr h pos n) := by
+  have hprep : (Call.dgetArr h pos n).prepare r.state = (Call.dgetArr h pos n).prepareDoc d := by rw [hs]; rfl
+  by_cases hkind : d.kindOf h = .arr
+  · obtain ⟨pn, sl, s, hf, hkd⟩ := kindOf_arr.mp hkind
+    have hsz := arr_size I hf hkd
+    by_cases hr : PlainDoc.inRange pos n s = true
+    · have hcall : r.call (.dgetArr h pos n) =
+          (r, .ok (.vals ((((d.liveChildren h).drop pos.toNat).take n.toNat).map d.viewAt))) :=
+        call_of_done (by rw [hprep]; simp [Call.prepareDoc, Doc.assertLocal, hkind, arrRga_eq hf hkd,
+          validateRange_eq, hr])
+      refine ⟨eff_ok hcall, refines_same hs hcall ?_⟩
+      intro π hd hkeys hloc hh
+      simp only [PlainDoc.handleOf, Option.some.injEq] at hh
+      subst hh
+      obtain ⟨loc, _⟩ := loc_of I hkeys hloc
+      have hg := I.dg hkeys
+      have hsub := loc.sub
+      rw [shape_arr hg hf hkd] at hsub
+      have hlen : (((arrView d sl).map JVal.canon).length : Int) = s := by
+        rw [List.length_map, arrView_length, hsz]
+      simp only [PlainDoc.step, hsub, PlainDoc.outCanon, hlen, hr, Bool.not_true, Bool.false_eq_true, if_false,
+        PlainDoc.retCanon]
+      rw [liveChildren_eq hf hkd, arrView_eq]
+      simp [List.map_take, List.map_drop]
+    · have hcall : r.call (.dgetArr h pos n) = (r, .err Err.illegalParameters) :=
+        call_of_done (by rw [hprep]; simp [Call.prepareDoc, Doc.assertLocal, hkind, arrRga_eq hf hkd,
+          validateRange_eq, hr])
+      refine ⟨eff_err hcall, refines_same hs hcall ?_⟩
+      intro π hd hkeys hloc hh
+      simp only [PlainDoc.handleOf, Option.some.injEq] at hh
+      subst hh
+      obtain ⟨loc, _⟩ := loc_of I hkeys hloc
+      have hg := I.dg hkeys
+      have hsub := loc.sub
+      rw [shape_arr hg hf hkd] at hsub
+      have hlen : (((arrView d sl).map JVal.canon).length : Int) = s := by
+        rw [List.length_map, arrView_length, hsz]
+      simp only [PlainDoc.step, hsub, PlainDoc.outCanon, hlen, hr]
+      simp
+  · have hcall : r.call (.dgetArr h pos n) = (r, .err Err.invalidParent) :=
+      call_of_done (by rw [hprep]; simp [Call.prepareDoc, Doc.assertLocal, hkind])
+    refine ⟨eff_err hcall, refines_same hs hcall ?_⟩
+    intro π hd hkeys hloc hh
+    simp only [PlainDoc.handleOf, Option.some.injEq] at hh
+    subst hh
+    obtain ⟨loc, pn, hf⟩ := loc_of I hkeys hloc
+    have hg := I.dg hkeys
+    have hsub := loc.sub
+    cases hkd : pn.kind with
+    | elem v =>
+      obtain ⟨e1, e2, e3⟩ := shape_elem I hf hkd
+      rw [e1] at hsub
+      simp only [PlainDoc.step, hsub, PlainDoc.outCanon]
+    | obj m s =>
+      rw [shape_obj hg hf hkd] at hsub
+      simp only [PlainDoc.step, hsub, PlainDoc.outCanon]
+    | arr sl s => exact absurd (kindOf_arr' hf hkd) hkind
+
+/-! ### object calls -/
+
+/-- a located handle that is not an object shows a non-object -/
+theorem wrong_kind_obj {L : OpId} {b : Nat} {d : Doc} (I : DInv L b d) (hk : KeysND d) {π : List PlainDoc.Seg}
+    {hd : Ts} (hloc : d.locate π Ts.oldest = some hd) (hkind : d.kindOf hd ≠ .obj) :
+    ∃ s, PlainDoc.sub π d.view.canon = some s ∧ ∀ kvs, s ≠ .obj kvs := by
+  obtain ⟨loc, pn, hf⟩ := loc_of I hk hloc
+  have hg := I.dg hk
+  cases hkd : pn.kind with
+  | elem v =>
+    obtain ⟨e1, e2, _⟩ := shape_elem I hf hkd
+    exact ⟨_, loc.sub, by rw [e1]; exact e2⟩
+  | obj m s => exact absurd (kindOf_obj' hf hkd) hkind
+  | arr sl s => exact ⟨_, loc.sub, by rw [shape_arr hg hf hkd]; intro kvs h; cases h⟩
+
+theorem wrong_kind_arr {L : OpId} {b : Nat} {d : Doc} (I : DInv L b d) (hk : KeysND d) {π : List PlainDoc.Seg}
+    {hd : Ts} (hloc : d.locate π Ts.oldest = some hd) (hkind : d.kindOf hd ≠ .arr) :
+    ∃ s, PlainDoc.sub π d.view.canon = some s ∧ ∀ l, s ≠ .arr l := by
+  obtain ⟨loc, pn, hf⟩ := loc_of I hk hloc
+  have hg := I.dg hk
+  cases hkd : pn.kind with
+  | elem v =>
+    obtain ⟨e1, _, e3⟩ := shape_elem I hf hkd
+    exact ⟨_, loc.sub, by rw [e1]; exact e3⟩
+  | obj m s => exact ⟨_, loc.sub, by rw [shape_obj hg hf hkd]; intro kvs h; cases h⟩
+  | arr sl s => exact absurd (kindOf_arr' hf hkd) hkind
+
+theorem objDel_sublist (k : String) : ∀ (l : List (String × JVal)), (objDel k l).Sublist l := by
+  intro l
+  induction l with
+  | nil => exact List.Sublist.refl _
+  | cons x r ih =>
+    obtain ⟨k0, v0⟩ := x
+    simp only [objDel]
+    split
+    · exact List.sublist_cons_self _ _
+    · exact List.Sublist.cons_cons _ ih
+
+theorem ksorted_objDel (k : String) {l : List (String × JVal)} (h : KSorted l) : KSorted (objDel k l) :=
+  List.Pairwise.sublist (objDel_sublist k l) h
+
+theorem alFind_objDel (k k' : String) : ∀ {l : List (String × JVal)}, KSorted l →
+    alFind k' (objDel k l) = if k = k' then none else alFind k' l := by
+  intro l
+  induction l with
+  | nil => intro _; simp [objDel, alFind]
+  | cons x r ih =>
+    obtain ⟨k0, v0⟩ := x
+    intro hs
+    unfold KSorted at hs
+    rw [List.pairwise_cons] at hs
+    simp only [objDel]
+    by_cases e : k = k0
+    · subst e
+      simp only [if_true, alFind]
+      by_cases e2 : k = k'
+      · subst e2
+        simp only [if_true]
+        exact alFind_none_of_lt (fun x hx => hs.1 x hx)
+      · simp [e2]
+    · simp only [e, if_false, alFind, ih hs.2]
+      by_cases e2 : k0 = k'
+      · have : ¬ k = k' := fun e' => e (e'.trans e2.symm)
+        simp [e2, this]
+      · simp [e2]
+
+/-- the view of `hd` after a put -/
+theorem put_view {L : OpId} {b' : Nat} {d d' : Doc} {h : Ts} {pn : DNode} {m : List (String × Ts)} {s s' : Int}
+    {k : String} {v : JVal} {ts ts' : Ts} {ns : List DNode}
+    (hstp : Stp L 0 b' d h pn (.obj (alSet k ts m) s') ns (buryOf (alFind k m) ts) (fun _ => none) d')
+    (hg : DG d) (hg' : DG d') (hkd : pn.kind = .obj m s) (hc : createNode h ts v = .ok (ns, ts, ts')) :
+    (d'.viewAt h).canon = .obj (objPut k v.canon (JVal.canonKvs (objView d m))) := by
+  rw [shape_obj hg' hstp.find_hd rfl]
+  congr 1
+  apply ksorted_ext (ksorted_canonKvs _) (ksorted_objPut _ _ (ksorted_canonKvs _))
+  intro k'
+  have hk1 := hg'.keys h _ _ _ hstp.find_hd rfl
+  have hk0 := hg.keys h pn m s hstp.hp hkd
+  have hinj : (m.map (·.2)).Nodup := by have := hstp.inv.wf.inj h pn hstp.hp; rwa [hkd] at this
+  rw [alFind_objPut, alFind_canonKvs, alFind_canonKvs, objView_find hk1, objView_find hk0, alFind_alSet]
+  by_cases e : k = k'
+  · subst e
+    obtain ⟨_, _, n0, rest, hns, hn0c, _⟩ := createNode_spec h ts v _ hc
+    simp only at hns
+    have hlive := hstp.isTomb_new (n := n0) (by rw [hns]; simp)
+    rw [hn0c] at hlive
+    simp [hlive, hstp.view_created hg' hc (fun n hn => hn)]
+  · simp only [e, if_false]
+    cases hx : alFind k' m with
+    | none => rfl
+    | some x =>
+      have hxk : x ∈ kids pn.kind := by rw [hkd]; exact alFind_mem_vals hx
+      have hb : buryOf (alFind k m) ts x = none := by
+        cases hb : buryOf (alFind k m) ts x with
+        | none => rfl
+        | some t =>
+          obtain ⟨e1, _⟩ := buryOf_some hb
+          exact absurd (alFind_inj_of_vals_nodup hinj e1 hx) e
+      obtain ⟨h1, h2⟩ := hstp.view_old hg hg' hxk hb rfl
+      simp only [Option.bind_some, h1, h2]
+
+/-- the view of `hd` after the removal of a live key -/
+theorem remove_view {L : OpId} {b' : Nat} {d d' : Doc} {h c : Ts} {pn : DNode} {m : List (String × Ts)} {s s' : Int}
+    {k : String} {ts : Ts}
+    (hstp : Stp L 0 b' d h pn (.obj m s') [] (fun _ => none) (buryOf (some c) ts) d')
+    (hg : DG d) (hg' : DG d') (hkd : pn.kind = .obj m s) (hf : alFind k m = some c) :
+    (d'.viewAt h).canon = .obj (objDel k (JVal.canonKvs (objView d m))) := by
+  rw [shape_obj hg' hstp.find_hd rfl]
+  congr 1
+  apply ksorted_ext (ksorted_canonKvs _) (ksorted_objDel _ (ksorted_canonKvs _))
+  intro k'
+  have hk0 := hg.keys h pn m s hstp.hp hkd
+  have hinj : (m.map (·.2)).Nodup := by have := hstp.inv.wf.inj h pn hstp.hp; rwa [hkd] at this
+  rw [alFind_objDel _ _ (ksorted_canonKvs _), alFind_canonKvs, alFind_canonKvs, objView_find hk0, objView_find hk0]
+  by_cases e : k = k'
+  · subst e
+    simp [hf, hstp.isTomb_tm rfl (buryOf_self c ts)]
+  · simp only [e, if_false]
+    cases hx : alFind k' m with
+    | none => rfl
+    | some x =>
+      have hxk : x ∈ kids pn.kind := by rw [hkd]; exact alFind_mem_vals hx
+      have hne : x ≠ c := fun e' => e (alFind_inj_of_vals_nodup hinj hf (e' ▸ hx))
+      obtain ⟨h1, h2⟩ := hstp.view_old hg hg' hxk rfl (buryOf_ne hne)
+      simp only [Option.bind_some, h1, h2]
+
+theorem full_dput {r : Replica} {d : Doc} (hs : r.state = .doc d) (I : DInv r.opId 0 d) (h : Ts) (k : String) (v : JVal) :
+    Eff r d (.dput h k v) ∧ Refines r d (.dput h k v) := by
+  have hprep : (Call.dput h k v).prepare r.state = (Call.dput h k v).prepareDoc d := by rw [hs]; rfl
+  by_cases hkind : d.kindOf h = .obj
+  · obtain ⟨pn, m, s, hf, hkd⟩ := kindOf_obj.mp hkind
+    by_cases hgb : d.garbage h = true
+    · have hcall : r.call (.dput h k v) = (r, .err Err.noOp) :=
+        call_of_done (by rw [hprep]; simp [Call.prepareDoc, Doc.assertLocal, hkind, hgb])
+      refine ⟨eff_err hcall, ?_⟩
+      intro π hd hkeys _ hloc hh
+      simp only [PlainDoc.handleOf, Option.some.injEq] at hh
+      subst hh
+      obtain ⟨loc, _⟩ := loc_of I hkeys hloc
+      rw [loc.garbage] at hgb; cases hgb
+    · by_cases hnull : v.hasNull = true
+      · have hcall : r.call (.dput h k v) = (r, .err Err.illegalParameters) :=
+          call_of_done (by rw [hprep]; simp [Call.prepareDoc, Doc.assertLocal, hkind, hgb, hnull])
+        refine ⟨eff_err hcall, refines_same hs hcall ?_⟩
+        intro π hd hkeys hloc hh
+        simp only [PlainDoc.handleOf, Option.some.injEq] at hh
+        subst hh
+        obtain ⟨loc, _⟩ := loc_of I hkeys hloc
+        have hsub := loc.sub
+        rw [shape_obj (I.dg hkeys) hf hkd] at hsub
+        simp only [PlainDoc.step, hsub, hnull, if_true, PlainDoc.outCanon]
+      · have hnn : v.hasNull = false := by simpa using hnull
+        obtain ⟨ns, ts', s', d', hc, hrun, hstp, hsize⟩ := put_run I hf hkd k v hnn
+        have hcall := call_of_ok (r := r) (c := .dput h k v) (b := .docPut h k v) (post := docRet d true)
+          (s' := .doc d') (b' := .docPut h k v)
+          (ret := .nodes ((alFind k m).bind (fun c => if d.isTomb c then none else some c)).toList)
+          (by rw [hprep]; simp [Call.prepareDoc, Doc.assertLocal, hkind, hgb, hnn]) rfl
+          (by rw [hs]; simp only [execLocal, hrun])
+        have I' := hstp.next hsize
+        have hkeys' : KeysND d → JKeysND v → KeysND d' := fun hkeys hjk =>
+          hstp.next_keys hkeys (createNode_keysND h _ v _ hc hjk)
+            (by
+              intro m' s'' hh
+              simp only [DKind.obj.injEq] at hh
+              rw [← hh.1]
+              exact DC.alSet_keys_nodup (hkeys h pn m s hf hkd))
+        refine ⟨Or.inr (Or.inr ⟨d', _, _, _, hcall, I', hkeys'⟩), ?_⟩
+        intro π hd hkeys hjk hloc hh
+        simp only [PlainDoc.handleOf, Option.some.injEq] at hh
+        subst hh
+        obtain ⟨loc, _⟩ := loc_of I hkeys hloc
+        have hg := I.dg hkeys
+        have hg' := I'.dg (hkeys' hkeys hjk)
+        have hsub := loc.sub
+        rw [shape_obj hg hf hkd] at hsub
+        refine ⟨d', by rw [hcall], ?_, ?_⟩
+        · simp only [PlainDoc.step, hsub, hnn, Bool.false_eq_true, if_false]
+          rw [hstp.view_put hg hg' loc.live hloc, put_view hstp hg hg' hkd hc]
+        · simp only [PlainDoc.step, hsub, hnn, Bool.false_eq_true, if_false]
+          rw [hcall]
+          simp only [PlainDoc.outCanon]
+          rw [alFind_canonKvs, objView_find (hkeys h pn m s hf hkd)]
+          cases hx : alFind k m with
+          | none => rfl
+          | some x =>
+            by_cases ht : d.isTomb x = true <;> simp [ht, docRet, PlainDoc.retCanon]
+  · have hcall : r.call (.dput h k v) = (r, .err Err.invalidParent) :=
+      call_of_done (by rw [hprep]; simp [Call.prepareDoc, Doc.assertLocal, hkind])
+    refine ⟨eff_err hcall, refines_same hs hcall ?_⟩
+    intro π hd hkeys hloc hh
+    simp only [PlainDoc.handleOf, Option.some.injEq] at hh
+    subst hh
+    obtain ⟨s0, hsub, hn⟩ := wrong_kind_obj I hkeys hloc hkind
+    simp only [PlainDoc.step, hsub, PlainDoc.outCanon]
+
+theorem full_dremove {r : Replica} {d : Doc} (hs : r.state = .doc d) (I : DInv r.opId 0 d) (h : Ts) (k : String) :
+    Eff r d (.dremove h k) ∧ Refines r d (.dremove h k) := by
+  have hprep : (Call.dremove h k).prepare r.state = (Call.dremove h k).prepareDoc d := by rw [hs]; rfl
+  by_cases hkind : d.kindOf h = .obj
+  · obtain ⟨pn, m, s, hf, hkd⟩ := kindOf_obj.mp hkind
+    by_cases hgb : d.garbage h = true
+    · have hcall : r.call (.dremove h k) = (r, .err Err.noOp) :=
+        call_of_done (by rw [hprep]; simp [Call.prepareDoc, Doc.assertLocal, hkind, hgb])
+      refine ⟨eff_err hcall, ?_⟩
+      intro π hd hkeys _ hloc hh
+      simp only [PlainDoc.handleOf, Option.some.injEq] at hh
+      subst hh
+      obtain ⟨loc, _⟩ := loc_of I hkeys hloc
+      rw [loc.garbage] at hgb; cases hgb
+    · have hprep2 : (Call.dremove h k).prepare r.state = .op (.docRemove h k) (docRet d true) := by
+        rw [hprep]; simp [Call.prepareDoc, Doc.assertLocal, hkind, hgb]
+      by_cases hlive : ∃ c, alFind k m = some c ∧ d.isTomb c = false
+      · obtain ⟨c, hfk, hlv⟩ := hlive
+        obtain ⟨d', hrun, hstp, hsize⟩ := remove_run I hf hkd k hfk hlv
+        have hcall := call_of_ok (r := r) (c := .dremove h k) (b := .docRemove h k) (post := docRet d true)
+          (s' := .doc d') (b' := .docRemove h k) (ret := .nodes [c]) hprep2 rfl
+          (by rw [hs]; simp only [execLocal, hrun]; rfl)
+        have I' := hstp.next hsize
+        have hkeys' : KeysND d → KeysND d' := fun hkeys =>
+          hstp.next_keys hkeys (by intro n hn; cases hn)
+            (by
+              intro m' s'' hh
+              simp only [DKind.obj.injEq] at hh
+              rw [← hh.1]
+              exact hkeys h pn m s hf hkd)
+        refine ⟨Or.inr (Or.inr ⟨d', _, _, _, hcall, I', fun hk _ => hkeys' hk⟩), ?_⟩
+        intro π hd hkeys _ hloc hh
+        simp only [PlainDoc.handleOf, Option.some.injEq] at hh
+        subst hh
+        obtain ⟨loc, _⟩ := loc_of I hkeys hloc
+        have hg := I.dg hkeys
+        have hg' := I'.dg (hkeys' hkeys)
+        have hsub := loc.sub
+        rw [shape_obj hg hf hkd] at hsub
+        have hfind : alFind k (JVal.canonKvs (objView d m)) = some (d.viewAt c).canon := by
+          rw [alFind_canonKvs, objView_find (hkeys h pn m s hf hkd), hfk]
+          simp [hlv]
+        refine ⟨d', by rw [hcall], ?_, ?_⟩
+        · simp only [PlainDoc.step, hsub, hfind]
+          rw [hstp.view_put hg hg' loc.live hloc, remove_view hstp hg hg' hkd hfk]
+        · simp only [PlainDoc.step, hsub, hfind]
+          rw [hcall]
+          simp [PlainDoc.outCanon, docRet, PlainDoc.retCanon]
+      · have herr := remove_err hf hkd k r.opId.next.ts (by
+          cases hfk : alFind k m with
+          | none => exact Or.inl rfl
+          | some c =>
+            refine Or.inr ⟨c, rfl, ?_⟩
+            by_cases ht : d.isTomb c = true
+            · exact ht
+            · exact absurd ⟨c, hfk, by simpa using ht⟩ hlive)
+        have hcall : r.call (.dremove h k) = (r, .err Err.noOp) :=
+          call_of_err hprep2 rfl (by rw [hs]; simp only [execLocal, herr])
+        refine ⟨eff_err hcall, refines_same hs hcall ?_⟩
+        intro π hd hkeys hloc hh
+        simp only [PlainDoc.handleOf, Option.some.injEq] at hh
+        subst hh
+        obtain ⟨loc, _⟩ := loc_of I hkeys hloc
+        have hsub := loc.sub
+        rw [shape_obj (I.dg hkeys) hf hkd] at hsub
+        have hfind : alFind k (JVal.canonKvs (objView d m)) = none := by
+          rw [alFind_canonKvs, objView_find (hkeys h pn m s hf hkd)]
+          cases hfk : alFind k m with
+          | none => rfl
+          | some c =>
+            by_cases ht : d.isTomb c = true
+            · simp [ht]
+            · exact absurd ⟨c, hfk, by simpa using ht⟩ hlive
+        simp only [PlainDoc.step, hsub, hfind, PlainDoc.outCanon]
+  · have hcall : r.call (.dremove h k) = (r, .err Err.invalidParent) :=
+      call_of_done (by rw [hprep]; simp [Call.prepareDoc, Doc.assertLocal, hkind])
+    refine ⟨eff_err hcall, refines_same hs hcall ?_⟩
+    intro π hd hkeys hloc hh
+    simp only [PlainDoc.handleOf, Option.some.injEq] at hh
+    subst hh
+    obtain ⟨s0, hsub, hn⟩ := wrong_kind_obj I hkeys hloc hkind
+    simp only [PlainDoc.step, hsub, PlainDoc.outCanon]
+
+/-! ### array calls -/
+
+theorem arrView_append (d : Doc) (a b : List (Ts × Ts)) : arrView d (a ++ b) = arrView d a ++ arrView d b :=
+  List.filterMap_append
+
+theorem Stp.arrView_old {L : OpId} {b b' : Nat} {d d' : Doc} {hd : Ts} {pn : DNode} {K' : DKind} {ns : List DNode}
+    {bury tm : Ts → Option Ts} (h : Stp L b b' d hd pn K' ns bury tm d') (hg : DG d) (hg' : DG d')
+    (X : List (Ts × Ts)) (hX : ∀ x ∈ X, x.2 ∈ kids pn.kind ∧ bury x.2 = none ∧ tm x.2 = none) :
+    arrView d' X = arrView d X := by
+  unfold arrView
+  apply List.filterMap_congr
+  intro x hx
+  obtain ⟨h1, h2, h3⟩ := hX x hx
+  obtain ⟨e1, e2⟩ := h.view_old hg hg' h1 h2 h3
+  obtain ⟨a, c⟩ := x
+  simp only at e1 e2 ⊢
+  rw [e1, e2]
+
+theorem live_vals (d : Doc) (sl : List (Ts × Ts)) (p n : Nat) :
+    ((((sl.filter (slotLive d)).drop p).take n).map (·.2)).map (fun x => (d.viewAt x).canon) =
+      (((arrView d sl).map JVal.canon).drop p).take n := by
+  rw [arrView_eq]
+  simp only [List.map_take, List.map_drop, List.map_map]
+  rfl
+
+theorem inRange_facts {pos n s : Int} (h : PlainDoc.inRange pos n s = true) :
+    0 ≤ pos ∧ 1 ≤ n ∧ pos + n ≤ s := by
+  unfold PlainDoc.inRange at h
+  simp only [Bool.and_eq_true, decide_eq_true_eq] at h
+  exact ⟨h.1.1.1, h.1.1.2, h.2⟩
+
+theorem full_dinsert {r : Replica} {d : Doc} (hs : r.state = .doc d) (I : DInv r.opId 0 d) (h : Ts) (pos : Int)
+    (vs : List JVal) : Eff r d (.dinsert h pos vs) ∧ Refines r d (.dinsert h pos vs) := by
+  have hprep : (Call.dinsert h pos vs).prepare r.state = (Call.dinsert h pos vs).prepareDoc d := by rw [hs]; rfl
+  by_cases hkind : d.kindOf h = .arr
+  · obtain ⟨pn, sl, s, hf, hkd⟩ := kindOf_arr.mp hkind
+    have hsz := arr_size I hf hkd
+    by_cases hgb : d.garbage h = true
+    · have hcall : r.call (.dinsert h pos vs) = (r, .err Err.noOp) :=
+        call_of_done (by rw [hprep]; simp [Call.prepareDoc, Doc.assertLocal, hkind, hgb])
+      refine ⟨eff_err hcall, ?_⟩
+      intro π hd hkeys _ hloc hh
+      simp only [PlainDoc.handleOf, Option.some.injEq] at hh
+      subst hh
+      obtain ⟨loc, _⟩ := loc_of I hkeys hloc
+      rw [loc.garbage] at hgb; cases hgb
+    · -- the view of the array, for the specification side
+      have spec_sub : ∀ {π : List PlainDoc.Seg}, KeysND d → d.locate π Ts.oldest = some h →
+          PlainDoc.sub π d.view.canon = some (.arr ((arrView d sl).map JVal.canon)) ∧
+          (((arrView d sl).map JVal.canon).length : Int) = s := by
+        intro π hkeys hloc
+        obtain ⟨loc, _⟩ := loc_of I hkeys hloc
+        have hsub := loc.sub
+        rw [shape_arr (I.dg hkeys) hf hkd] at hsub
+        exact ⟨hsub, by rw [List.length_map, arrView_length, hsz]⟩
+      by_cases hr : (pos < 0 || pos > s) = true
+      · have hcall : r.call (.dinsert h pos vs) = (r, .err Err.illegalParameters) :=
+          call_of_done (by rw [hprep]; simp only [Call.prepareDoc, Doc.assertLocal, hkind, hgb, arrRga_eq hf hkd,
+            validateInsert_eq, hr]; simp)
+        refine ⟨eff_err hcall, refines_same hs hcall ?_⟩
+        intro π hd hkeys hloc hh
+        simp only [PlainDoc.handleOf, Option.some.injEq] at hh
+        subst hh
+        obtain ⟨hsub, hlen⟩ := spec_sub hkeys hloc
+        simp only [PlainDoc.step, hsub, hlen, hr, if_true, PlainDoc.outCanon]
+      · by_cases hnull : vs.any JVal.hasNull = true
+        · have hcall : r.call (.dinsert h pos vs) = (r, .err Err.illegalParameters) :=
+            call_of_done (by rw [hprep]; simp only [Call.prepareDoc, Doc.assertLocal, hkind, hgb, arrRga_eq hf hkd,
+              validateInsert_eq, hr, hnull]; simp)
+          refine ⟨eff_err hcall, refines_same hs hcall ?_⟩
+          intro π hd hkeys hloc hh
+          simp only [PlainDoc.handleOf, Option.some.injEq] at hh
+          subst hh
+          obtain ⟨hsub, hlen⟩ := spec_sub hkeys hloc
+          simp only [PlainDoc.step, hsub, hlen, hr, hnull, if_true, PlainDoc.outCanon]
+          simp
+        · have hnn : JVal.hasNullList vs = false := by rw [← any_hasNull_iff]; simpa using hnull
+          have hr' : 0 ≤ pos ∧ pos ≤ s := by
+            simp only [Bool.or_eq_true, decide_eq_true_eq, not_or] at hr
+            omega
+          have hpos : pos.toNat ≤ (sl.filter (slotLive d)).length := by omega
+          obtain ⟨ns, cs, ts', pre, suf, d', a, hc, e1, e3, hrun, hstp, hsize⟩ :=
+            insert_run I hf hkd pos.toNat vs hpos hnn
+          have hcall := call_of_ok (r := r) (c := .dinsert h pos vs) (b := .docInsert h pos.toNat none vs) (post := id)
+            (s' := .doc d') (b' := .docInsert h pos.toNat (some a) vs) (ret := .none)
+            (by rw [hprep]; simp only [Call.prepareDoc, Doc.assertLocal, hkind, hgb, arrRga_eq hf hkd,
+              validateInsert_eq, hr, hnull]; simp) rfl
+            (by rw [hs]; simp only [execLocal, hrun])
+          have I' := hstp.next hsize
+          have hkeys' : KeysND d → JKeysNDList vs → KeysND d' := fun hkeys hjk =>
+            hstp.next_keys hkeys (createArrItems_keysND h _ vs _ _ _ hc hjk) (by intro m' s'' hh; cases hh)
+          refine ⟨Or.inr (Or.inr ⟨d', _, _, _, hcall, I', hkeys'⟩), ?_⟩
+          intro π hd hkeys hjk hloc hh
+          simp only [PlainDoc.handleOf, Option.some.injEq] at hh
+          subst hh
+          obtain ⟨loc, _⟩ := loc_of I hkeys hloc
+          obtain ⟨hsub, hlen⟩ := spec_sub hkeys hloc
+          have hg := I.dg hkeys
+          have hg' := I'.dg (hkeys' hkeys hjk)
+          have hkids : kids pn.kind = sl.map (·.2) := by rw [hkd]; rfl
+          refine ⟨d', by rw [hcall], ?_, ?_⟩
+          · simp only [PlainDoc.step, hsub, hlen, hr, hnull, Bool.false_eq_true, if_false]
+            rw [hstp.view_put hg hg' loc.live hloc, shape_arr hg' hstp.find_hd rfl]
+            congr 2
+            have hold : ∀ X, (∀ x ∈ X, x ∈ sl) → arrView d' X = arrView d X := fun X hX =>
+              hstp.arrView_old hg hg' X (fun x hx => ⟨by rw [hkids]; exact List.mem_map.mpr ⟨x, hX x hx, rfl⟩, rfl, rfl⟩)
+            rw [arrView_append, arrView_append, hold pre (by intro x hx; rw [e1]; exact List.mem_append_left _ hx),
+              hold suf (by intro x hx; rw [e1]; exact List.mem_append_right _ hx), hstp.view_createdMany hg' hc, e1,
+              arrView_append]
+            have hl : ((arrView d pre).map JVal.canon).length = pos.toNat := by
+              rw [List.length_map, arrView_length, e3]
+            simp only [List.map_append]
+            rw [List.take_left' hl, List.drop_left' hl]
+          · simp only [PlainDoc.step, hsub, hlen, hr, hnull, Bool.false_eq_true, if_false]
+            rw [hcall]
+            rfl
+  · have hcall : r.call (.dinsert h pos vs) = (r, .err Err.invalidParent) :=
+      call_of_done (by rw [hprep]; simp [Call.prepareDoc, Doc.assertLocal, hkind])
+    refine ⟨eff_err hcall, refines_same hs hcall ?_⟩
+    intro π hd hkeys hloc hh
+    simp only [PlainDoc.handleOf, Option.some.injEq] at hh
+    subst hh
+    obtain ⟨s0, hsub, hn⟩ := wrong_kind_arr I hkeys hloc hkind
+    simp only [PlainDoc.step, hsub, PlainDoc.outCanon]
+
+theorem retCanon_val (o : Option JVal) : PlainDoc.retCanon (.val o) = .val (o.map JVal.canon) := by
+  cases o <;> rfl
+
+/-- what DocDelete does, for both public variants -/
+theorem delete_core {r : Replica} {d : Doc} (hs : r.state = .doc d) (I : DInv r.opId 0 d) {h : Ts} {pn : DNode}
+    {sl : List (Ts × Ts)} {s : Int} (hf : d.find h = some pn) (hkd : pn.kind = .arr sl s) (c : Call)
+    (post : Ret → Ret) (p num : Nat) (hprep : c.prepare r.state = .op (.docDelete h p num []) post)
+    (hrange : p + num ≤ (sl.filter (slotLive d)).length) :
+    ∃ d' bd, r.call c = ({ r with opId := r.opId.next, state := .doc d', rbOps := r.rbOps ++ [⟨r.opId.next, bd⟩],
+                                  buffer := r.buffer ++ [Op.wire ⟨r.opId.next, bd⟩] },
+        .ok (post (.nodes ((((sl.filter (slotLive d)).drop p).take num).map (·.2))))) ∧
+      DInv r.opId num d' ∧ (KeysND d → KeysND d') ∧
+      ∀ (π : List PlainDoc.Seg), KeysND d → d.locate π Ts.oldest = some h →
+        d'.view.canon = PlainDoc.put d.view.canon π
+          (.arr (((arrView d sl).map JVal.canon).take p ++ ((arrView d sl).map JVal.canon).drop (p + num))) := by
+  obtain ⟨d', hrun, hstp, hsize, hfilt, hnone⟩ := delete_run I hf hkd p num hrange
+  have hcall := call_of_ok (r := r) (c := c) (b := .docDelete h p num []) (post := post)
+    (s' := .doc d') (b' := .docDelete h p num ((((sl.filter (slotLive d)).drop p).take num).map (·.1)))
+    (ret := .nodes ((((sl.filter (slotLive d)).drop p).take num).map (·.2))) hprep rfl
+    (by rw [hs]; simp only [execLocal, hrun])
+  have I' := hstp.next hsize
+  have hkeys' : KeysND d → KeysND d' := fun hkeys =>
+    hstp.next_keys hkeys (by intro n hn; cases hn) (by intro m' s'' hh; cases hh)
+  refine ⟨d', _, hcall, I', hkeys', ?_⟩
+  intro π hkeys hloc
+  obtain ⟨loc, _⟩ := loc_of I hkeys hloc
+  have hg := I.dg hkeys
+  have hg' := I'.dg (hkeys' hkeys)
+  have hkids : kids pn.kind = sl.map (·.2) := by rw [hkd]; rfl
+  rw [hstp.view_put hg hg' loc.live hloc, shape_arr hg' hstp.find_hd rfl]
+  congr 2
+  rw [← List.map_take, ← List.map_drop, ← List.map_append]
+  congr 1
+  rw [arrView_eq, hfilt, arrView_eq, ← List.map_take, ← List.map_drop, ← List.map_take, ← List.map_drop,
+    ← List.map_append, ← List.map_append]
+  rw [List.map_map, List.map_map]
+  apply List.map_congr_left
+  intro x hx
+  have hxF : x ∈ sl.filter (slotLive d) := by
+    rcases List.mem_append.mp hx with hx | hx
+    · exact List.mem_of_mem_take hx
+    · exact List.mem_of_mem_drop hx
+  have hxk : x.2 ∈ kids pn.kind := by
+    rw [hkids]; exact List.mem_map.mpr ⟨x, (List.mem_filter.mp hxF).1, rfl⟩
+  exact (hstp.view_old hg hg' hxk rfl (hnone x hx)).1
+
+theorem eff_of_core {r : Replica} {d d' : Doc} {c : Call} {bd : OpBody} {v : Ret} {b' : Nat}
+    (hcall : r.call c = ({ r with opId := r.opId.next, state := .doc d', rbOps := r.rbOps ++ [⟨r.opId.next, bd⟩],
+                                  buffer := r.buffer ++ [Op.wire ⟨r.opId.next, bd⟩] }, .ok v))
+    (I' : DInv r.opId b' d') (hk : KeysND d → CallKeysND c → KeysND d') : Eff r d c :=
+  Or.inr (Or.inr ⟨d', b', bd, v, hcall, I', hk⟩)
+
+/-- the part of the array calls that is the same for all: kind and garbage checks -/
+theorem arr_prelude {r : Replica} {d : Doc} (hs : r.state = .doc d) (I : DInv r.opId 0 d) (c : Call) (h : Ts)
+    (hh : PlainDoc.handleOf c = some h)
+    (hwrong : d.kindOf h ≠ .arr → r.call c = (r, .err Err.invalidParent) ∧
+      ∀ (t s0 : JVal) (π : List PlainDoc.Seg), PlainDoc.sub π t = some s0 → (∀ l, s0 ≠ .arr l) →
+        PlainDoc.step t π c = (t, .err Err.invalidParent))
+    (hgarb : d.kindOf h = .arr → d.garbage h = true → r.call c = (r, .err Err.noOp))
+    (hmain : ∀ pn sl s, d.find h = some pn → pn.kind = .arr sl s → d.garbage h = false → Eff r d c ∧ Refines r d c) :
+    Eff r d c ∧ Refines r d c := by
+  by_cases hkind : d.kindOf h = .arr
+  · obtain ⟨pn, sl, s, hf, hkd⟩ := kindOf_arr.mp hkind
+    by_cases hgb : d.garbage h = true
+    · have hcall := hgarb hkind hgb
+      refine ⟨eff_err hcall, ?_⟩
+      intro π hd hkeys _ hloc hh'
+      rw [hh] at hh'
+      simp only [Option.some.injEq] at hh'
+      subst hh'
+      obtain ⟨loc, _⟩ := loc_of I hkeys hloc
+      rw [loc.garbage] at hgb; cases hgb
+    · exact hmain pn sl s hf hkd (by simpa using hgb)
+  · obtain ⟨hcall, hstep⟩ := hwrong hkind
+    refine ⟨eff_err hcall, refines_same hs hcall ?_⟩
+    intro π hd hkeys hloc hh'
+    rw [hh] at hh'
+    simp only [Option.some.injEq] at hh'
+    subst hh'
+    obtain ⟨s0, hsub, hn⟩ := wrong_kind_arr I hkeys hloc hkind
+    exact hstep _ s0 π hsub hn
+
+theorem full_ddelete {r : Replica} {d : Doc} (hs : r.state = .doc d) (I : DInv r.opId 0 d) (h : Ts) (pos : Int) :
+    Eff r d (.ddelete h pos) ∧ Refines r d (.ddelete h pos) := by
+  have hprep : (Call.ddelete h pos).prepare r.state = (Call.ddelete h pos).prepareDoc d := by rw [hs]; rfl
+  apply arr_prelude hs I _ h rfl
+  · intro hkind
+    exact ⟨call_of_done (by rw [hprep]; simp [Call.prepareDoc, Doc.assertLocal, hkind]),
+      fun t s0 π hsub hn => by simp only [PlainDoc.step, hsub]⟩
+  · intro hkind hgb
+    exact call_of_done (by rw [hprep]; simp [Call.prepareDoc, Doc.assertLocal, hkind, hgb])
+  · intro pn sl s hf hkd hgb
+    have hkind := kindOf_arr' hf hkd
+    have hsz := arr_size I hf hkd
+    have spec_sub : ∀ {π : List PlainDoc.Seg}, KeysND d → d.locate π Ts.oldest = some h →
+        PlainDoc.sub π d.view.canon = some (.arr ((arrView d sl).map JVal.canon)) ∧
+        (((arrView d sl).map JVal.canon).length : Int) = s := by
+      intro π hkeys hloc
+      obtain ⟨loc, _⟩ := loc_of I hkeys hloc
+      have hsub := loc.sub
+      rw [shape_arr (I.dg hkeys) hf hkd] at hsub
+      exact ⟨hsub, by rw [List.length_map, arrView_length, hsz]⟩
+    by_cases hr : PlainDoc.inRange pos 1 s = true
+    · obtain ⟨h0, _, h2⟩ := inRange_facts hr
+      obtain ⟨d', bd, hcall, I', hkeys', hview⟩ := delete_core hs I hf hkd (.ddelete h pos) (docRet d true)
+        pos.toNat 1
+        (by rw [hprep]; simp [Call.prepareDoc, Doc.assertLocal, hkind, hgb, arrRga_eq hf hkd, validateRange_eq, hr])
+        (by omega)
+      refine ⟨eff_of_core hcall I' (fun hk _ => hkeys' hk), ?_⟩
+      intro π hd hkeys _ hloc hh
+      simp only [PlainDoc.handleOf, Option.some.injEq] at hh
+      subst hh
+      obtain ⟨hsub, hlen⟩ := spec_sub hkeys hloc
+      refine ⟨d', by rw [hcall], ?_, ?_⟩
+      · simp only [PlainDoc.step, hsub, hlen, hr, Bool.not_true, Bool.false_eq_true, if_false]
+        exact hview π hkeys hloc
+      · simp only [PlainDoc.step, hsub, hlen, hr, Bool.not_true, Bool.false_eq_true, if_false]
+        rw [hcall]
+        simp only [PlainDoc.outCanon, docRet, if_true, retCanon_val, List.head?_map, Option.map_map]
+        have := live_vals d sl pos.toNat 1
+        have h2 := congrArg List.head? this
+        simp only [List.head?_map, List.head?_take, Option.map_map] at h2
+        simp only [Function.comp_def, one_ne_zero, if_false] at h2
+        simp only [Function.comp_def, List.head?_take, one_ne_zero, if_false]
+        rw [h2]
+    · have hcall : r.call (.ddelete h pos) = (r, .err Err.illegalParameters) :=
+        call_of_done (by rw [hprep]; simp [Call.prepareDoc, Doc.assertLocal, hkind, hgb, arrRga_eq hf hkd,
+          validateRange_eq, hr])
+      refine ⟨eff_err hcall, refines_same hs hcall ?_⟩
+      intro π hd hkeys hloc hh
+      simp only [PlainDoc.handleOf, Option.some.injEq] at hh
+      subst hh
+      obtain ⟨hsub, hlen⟩ := spec_sub hkeys hloc
+      simp only [PlainDoc.step, hsub, hlen, hr, PlainDoc.outCanon]
+      simp
+
+theorem full_ddeleteMany {r : Replica} {d : Doc} (hs : r.state = .doc d) (I : DInv r.opId 0 d) (h : Ts) (pos n : Int) :
+    Eff r d (.ddeleteMany h pos n) ∧ Refines r d (.ddeleteMany h pos n) := by
+  have hprep : (Call.ddeleteMany h pos n).prepare r.state = (Call.ddeleteMany h pos n).prepareDoc d := by rw [hs]; rfl
+  apply arr_prelude hs I _ h rfl
+  · intro hkind
+    exact ⟨call_of_done (by rw [hprep]; simp [Call.prepareDoc, Doc.assertLocal, hkind]),
+      fun t s0 π hsub hn => by simp only [PlainDoc.step, hsub]⟩
+  · intro hkind hgb
+    exact call_of_done (by rw [hprep]; simp [Call.prepareDoc, Doc.assertLocal, hkind, hgb])
+  · intro pn sl s hf hkd hgb
+    have hkind := kindOf_arr' hf hkd
+    have hsz := arr_size I hf hkd
+    have spec_sub : ∀ {π : List PlainDoc.Seg}, KeysND d → d.locate π Ts.oldest = some h →
+        PlainDoc.sub π d.view.canon = some (.arr ((arrView d sl).map JVal.canon)) ∧
+        (((arrView d sl).map JVal.canon).length : Int) = s := by
+      intro π hkeys hloc
+      obtain ⟨loc, _⟩ := loc_of I hkeys hloc
+      have hsub := loc.sub
+      rw [shape_arr (I.dg hkeys) hf hkd] at hsub
+      exact ⟨hsub, by rw [List.length_map, arrView_length, hsz]⟩
+    by_cases hr : PlainDoc.inRange pos n s = true
+    · obtain ⟨h0, h1, h2⟩ := inRange_facts hr
+      obtain ⟨d', bd, hcall, I', hkeys', hview⟩ := delete_core hs I hf hkd (.ddeleteMany h pos n) (docRet d false)
+        pos.toNat n.toNat
+        (by rw [hprep]; simp [Call.prepareDoc, Doc.assertLocal, hkind, hgb, arrRga_eq hf hkd, validateRange_eq, hr])
+        (by omega)
+      refine ⟨eff_of_core hcall I' (fun hk _ => hkeys' hk), ?_⟩
+      intro π hd hkeys _ hloc hh
+      simp only [PlainDoc.handleOf, Option.some.injEq] at hh
+      subst hh
+      obtain ⟨hsub, hlen⟩ := spec_sub hkeys hloc
+      refine ⟨d', by rw [hcall], ?_, ?_⟩
+      · simp only [PlainDoc.step, hsub, hlen, hr, Bool.not_true, Bool.false_eq_true, if_false]
+        exact hview π hkeys hloc
+      · simp only [PlainDoc.step, hsub, hlen, hr, Bool.not_true, Bool.false_eq_true, if_false]
+        rw [hcall]
+        simp only [PlainDoc.outCanon, docRet, Bool.false_eq_true, if_false, PlainDoc.retCanon, List.map_map]
+        have := live_vals d sl pos.toNat n.toNat
+        simp only [List.map_map] at this
+        rw [← this]
+        rfl
+    · have hcall : r.call (.ddeleteMany h pos n) = (r, .err Err.illegalParameters) :=
+        call_of_done (by rw [hprep]; simp [Call.prepareDoc, Doc.assertLocal, hkind, hgb, arrRga_eq hf hkd,
+          validateRange_eq, hr])
+      refine ⟨eff_err hcall, refines_same hs hcall ?_⟩
+      intro π hd hkeys hloc hh
+      simp only [PlainDoc.handleOf, Option.some.injEq] at hh
+      subst hh
+      obtain ⟨hsub, hlen⟩ := spec_sub hkeys hloc
+      simp only [PlainDoc.step, hsub, hlen, hr, PlainDoc.outCanon]
+      simp
+
+theorem full_dupdate {r : Replica} {d : Doc} (hs : r.state = .doc d) (I : DInv r.opId 0 d) (h : Ts) (pos : Int)
+    (vs : List JVal) : Eff r d (.dupdate h pos vs) ∧ Refines r d (.dupdate h pos vs) := by
+  have hprep : (Call.dupdate h pos vs).prepare r.state = (Call.dupdate h pos vs).prepareDoc d := by rw [hs]; rfl
+  apply arr_prelude hs I _ h rfl
+  · intro hkind
+    exact ⟨call_of_done (by rw [hprep]; simp [Call.prepareDoc, Doc.assertLocal, hkind]),
+      fun t s0 π hsub hn => by simp only [PlainDoc.step, hsub]⟩
+  · intro hkind hgb
+    exact call_of_done (by rw [hprep]; simp [Call.prepareDoc, Doc.assertLocal, hkind, hgb])
+  · intro pn sl s hf hkd hgb
+    have hkind := kindOf_arr' hf hkd
+    have hsz := arr_size I hf hkd
+    have spec_sub : ∀ {π : List PlainDoc.Seg}, KeysND d → d.locate π Ts.oldest = some h →
+        PlainDoc.sub π d.view.canon = some (.arr ((arrView d sl).map JVal.canon)) ∧
+        (((arrView d sl).map JVal.canon).length : Int) = s := by
+      intro π hkeys hloc
+      obtain ⟨loc, _⟩ := loc_of I hkeys hloc
+      have hsub := loc.sub
+      rw [shape_arr (I.dg hkeys) hf hkd] at hsub
+      exact ⟨hsub, by rw [List.length_map, arrView_length, hsz]⟩
+    by_cases hr : PlainDoc.inRange pos vs.length s = true
+    · by_cases hnull : vs.any JVal.hasNull = true
+      · have hcall : r.call (.dupdate h pos vs) = (r, .err Err.illegalParameters) :=
+          call_of_done (by rw [hprep]; simp only [Call.prepareDoc, Doc.assertLocal, hkind, hgb, arrRga_eq hf hkd,
+            validateRange_eq, hr, hnull]; simp)
+        refine ⟨eff_err hcall, refines_same hs hcall ?_⟩
+        intro π hd hkeys hloc hh
+        simp only [PlainDoc.handleOf, Option.some.injEq] at hh
+        subst hh
+        obtain ⟨hsub, hlen⟩ := spec_sub hkeys hloc
+        simp only [PlainDoc.step, hsub, hlen, hr, hnull, PlainDoc.outCanon]
+        simp
+      · have hnn : JVal.hasNullList vs = false := by rw [← any_hasNull_iff]; simpa using hnull
+        obtain ⟨h0, _, h2⟩ := inRange_facts hr
+        obtain ⟨d', b', pn', sl', hrun, I', hp', hk', htomb', hsame', hview'⟩ :=
+          update_run I hf hkd pos.toNat vs (by omega) hnn
+        have hcall := call_of_ok (r := r) (c := .dupdate h pos vs) (b := .docUpdate h pos.toNat [] vs)
+          (post := docRet d false) (s' := .doc d')
+          (b' := .docUpdate h pos.toNat ((((sl.filter (slotLive d)).drop pos.toNat).take vs.length).map (·.1)) vs)
+          (ret := .nodes ((((sl.filter (slotLive d)).drop pos.toNat).take vs.length).map (·.2)))
+          (by rw [hprep]; simp only [Call.prepareDoc, Doc.assertLocal, hkind, hgb, arrRga_eq hf hkd,
+            validateRange_eq, hr, hnull]; simp) rfl
+          (by rw [hs]; simp only [execLocal, hrun])
+        refine ⟨eff_of_core hcall I' (fun hk hj => (hview' hk hj).1), ?_⟩
+        intro π hd hkeys hjk hloc hh
+        simp only [PlainDoc.handleOf, Option.some.injEq] at hh
+        subst hh
+        obtain ⟨loc, _⟩ := loc_of I hkeys hloc
+        obtain ⟨hsub, hlen⟩ := spec_sub hkeys hloc
+        obtain ⟨hkeys', hav⟩ := hview' hkeys hjk
+        have hg := I.dg hkeys
+        have hg' := I'.dg hkeys'
+        have hkids : kids pn.kind = sl.map (·.2) := by rw [hkd]; rfl
+        have hsm : Same d d' h
+            (fun x => x ∈ (((sl.filter (slotLive d)).drop pos.toNat).take vs.length).map (fun y => y.2)) := hsame'
+        have hput := DP.view_put hg hg' hsm
+          (by
+            intro x hx
+            refine ⟨pn, hf, ?_⟩
+            rw [hkids]
+            obtain ⟨y, hy, rfl⟩ := List.mem_map.mp hx
+            exact List.mem_map.mpr ⟨y, (List.mem_filter.mp (List.mem_of_mem_drop (List.mem_of_mem_take hy))).1, rfl⟩)
+          (by rw [htomb']; exact loc.live) hloc
+        refine ⟨d', by rw [hcall], ?_, ?_⟩
+        · simp only [PlainDoc.step, hsub, hlen, hr, hnull, Bool.not_true, Bool.false_eq_true, if_false]
+          rw [hput, shape_arr hg' hp' hk', hav]
+          congr 2
+          rw [arrView_eq]
+          simp only [List.map_append, List.map_take, List.map_drop, List.map_map]
+          rfl
+        · simp only [PlainDoc.step, hsub, hlen, hr, hnull, Bool.not_true, Bool.false_eq_true, if_false]
+          rw [hcall]
+          simp only [PlainDoc.outCanon, docRet, Bool.false_eq_true, if_false, PlainDoc.retCanon, List.map_map]
+          have := live_vals d sl pos.toNat vs.length
+          simp only [List.map_map] at this
+          rw [← this]
+          rfl
+    · have hcall : r.call (.dupdate h pos vs) = (r, .err Err.illegalParameters) :=
+        call_of_done (by rw [hprep]; simp [Call.prepareDoc, Doc.assertLocal, hkind, hgb, arrRga_eq hf hkd,
+          validateRange_eq, hr])
+      refine ⟨eff_err hcall, refines_same hs hcall ?_⟩
+      intro π hd hkeys hloc hh
+      simp only [PlainDoc.handleOf, Option.some.injEq] at hh
+      subst hh
+      obtain ⟨hsub, hlen⟩ := spec_sub hkeys hloc
+      simp only [PlainDoc.step, hsub, hlen, hr, PlainDoc.outCanon]
+      simp
+
+/-- every call: its effect on the replica and the refinement -/
+theorem call_full {r : Replica} {d : Doc} (hs : r.state = .doc d) (I : DInv r.opId 0 d) (c : Call) :
+    Eff r d c ∧ Refines r d c := by
+  cases c with
+  | dput h k v => exact full_dput hs I h k v
+  | dremove h k => exact full_dremove hs I h k
+  | dinsert h p vs => exact full_dinsert hs I h p vs
+  | ddelete h p => exact full_ddelete hs I h p
+  | ddeleteMany h p n => exact full_ddeleteMany hs I h p n
+  | dupdate h p vs => exact full_dupdate hs I h p vs
+  | dgetObj h k => exact full_dgetObj hs I h k
+  | dgetArr h p n => exact full_dgetArr hs I h p n
+  | dvalue h => exact full_dvalue hs I h
+  | inc x => exact full_other hs _ rfl
+  | mput k v => exact full_other hs _ rfl
+  | mremove k => exact full_other hs _ rfl
+  | mget k => exact full_other hs _ rfl
+  | msize => exact full_other hs _ rfl
+  | linsert p vs => exact full_other hs _ rfl
+  | ldelete p => exact full_other hs _ rfl
+  | ldeleteMany p n => exact full_other hs _ rfl
+  | lupdate p vs => exact full_other hs _ rfl
+  | lget p => exact full_other hs _ rfl
+  | lgetMany p n => exact full_other hs _ rfl
+  | lsize => exact full_other hs _ rfl
+
+/-! ## 6. the theorems -/
+
+theorem find_empty {c : Ts} {n : DNode} (h : Doc.empty.find c = some n) :
+    c = Ts.oldest ∧ n = ⟨Ts.oldest, none, none, .obj [] 0⟩ := by
+  unfold Doc.find Doc.empty at h
+  simp only [List.find?_cons, List.find?_nil] at h
+  split at h
+  · rename_i hc
+    simp only [Option.some.injEq] at h
+    have : Ts.oldest = c := by simpa using hc
+    exact ⟨this.symm, h.symm⟩
+  · cases h
+
+theorem dinv_empty (L : OpId) (hL : L.era = 0) : DInv L 0 Doc.empty := by
+  refine ⟨wf_doc_empty, ⟨fun _ => 0, ?_⟩, ⟨[], 0, rfl⟩, ?_, ?_, ?_, ?_, ?_⟩
+  · intro p n h c hc
+    obtain ⟨_, rfl⟩ := find_empty h
+    simp [kids] at hc
+  · intro c n h
+    obtain ⟨_, rfl⟩ := find_empty h
+    simp [SizeOK]
+  · intro c n h
+    obtain ⟨_, rfl⟩ := find_empty h
+    refine ⟨⟨by simp [Ts.oldest, hL], Or.inl (by simp [Ts.oldest])⟩, (by intro t ht; cases ht), (by simp [ordIds])⟩
+  · intro c n h
+    obtain ⟨_, rfl⟩ := find_empty h
+    simp [ordIds]
+  · intro c n h _
+    exact Or.inl (find_empty h).1
+  · intro c n v h hk
+    obtain ⟨_, rfl⟩ := find_empty h
+    cases hk
+
+theorem docInv_new (cuid : String) (create : Bool) : DocInv (Replica.new .document cuid create) := by
+  cases create
+  · exact ⟨Doc.empty, rfl, dinv_empty _ rfl, keysND_empty⟩
+  · exact ⟨Doc.empty, rfl, dinv_empty _ rfl, keysND_empty⟩
+
+theorem docInv_call (r : Replica) (c : Call) (hk : CallKeysND c) (h : DocInv r) : DocInv (r.call c).1 := by
+  obtain ⟨d, hs, I, hkeys⟩ := h
+  rcases (call_full hs I c).1 with ⟨h1, _⟩ | ⟨h1, _⟩ | ⟨d', b', bd, v, hcall, I', hk'⟩
+  · rw [h1]; exact ⟨d, hs, I, hkeys⟩
+  · rw [h1]; exact ⟨d, hs, I, hkeys⟩
+  · rw [hcall]; exact ⟨d', rfl, I'.finish, hk' hkeys hk⟩
+
+theorem doc_call_no_panic (r : Replica) (c : Call) (h : DocInv r) (w : String) : (r.call c).2 ≠ .panic w := by
+  obtain ⟨d, hs, I, _⟩ := h
+  rcases (call_full hs I c).1 with ⟨_, e, h2⟩ | ⟨_, v, h2⟩ | ⟨d', b', bd, v, hcall, _, _⟩
+  · rw [h2]; intro hh; cases hh
+  · rw [h2]; intro hh; cases hh
+  · rw [hcall]; intro hh; cases hh
+
+theorem doc_call_err_noop (r : Replica) (c : Call) (h : DocInv r) (e : Nat) (he : (r.call c).2 = .err e) :
+    (r.call c).1 = r := by
+  obtain ⟨d, hs, I, _⟩ := h
+  rcases (call_full hs I c).1 with ⟨h1, _⟩ | ⟨h1, _⟩ | ⟨d', b', bd, v, hcall, _, _⟩
+  · exact h1
+  · exact h1
+  · rw [hcall] at he; cases he
+
+theorem doc_call_ok_queues_one (r : Replica) (c : Call) (h : DocInv r) (v : Ret) (hok : (r.call c).2 = .ok v) :
+    (r.call c).1.buffer = r.buffer ∨ ∃ o : Op, (r.call c).1.buffer = r.buffer ++ [o] ∧ o.id = r.opId.next := by
+  have _ := hok
+  obtain ⟨d, hs, I, _⟩ := h
+  rcases (call_full hs I c).1 with ⟨h1, _⟩ | ⟨h1, _⟩ | ⟨d', b', bd, v', hcall, _, _⟩
+  · exact Or.inl (by rw [h1])
+  · exact Or.inl (by rw [h1])
+  · exact Or.inr ⟨Op.wire ⟨r.opId.next, bd⟩, by rw [hcall], rfl⟩
+
+/-- THE refinement: a call through a handle located at π changes the JSON view exactly as the plain tree changes, and
+    returns what the plain tree returns (values compared in canonical form) -/
+theorem doc_call_refines (r : Replica) (d : Doc) (hs : r.state = .doc d) (h : DocInv r) (π : List PlainDoc.Seg) (hd : Ts)
+    (hloc : d.locate π Ts.oldest = some hd) (c : Call) (hc : PlainDoc.handleOf c = some hd) (hk : CallKeysND c) :
+    ∃ d', (r.call c).1.state = .doc d' ∧
+      d'.view.canon = (PlainDoc.step d.view.canon π c).1 ∧
+      PlainDoc.outCanon (r.call c).2 = (PlainDoc.step d.view.canon π c).2 := by
+  obtain ⟨d0, hs0, I, hkeys⟩ := h
+  rw [hs] at hs0
+  simp only [DState.doc.injEq] at hs0
+  subst hs0
+  exact (call_full hs I c).2 π hd hkeys hk hloc hc
+
+/-- … and a located handle is not garbage (so the two notions coincide) -/
+theorem doc_located_not_garbage (r : Replica) (d : Doc) (hs : r.state = .doc d) (h : DocInv r) (π : List PlainDoc.Seg)
+    (hd : Ts) (hloc : d.locate π Ts.oldest = some hd) : d.garbage hd = false ∧ (d.find hd).isSome := by
+  obtain ⟨d0, hs0, I, hkeys⟩ := h
+  rw [hs] at hs0
+  simp only [DState.doc.injEq] at hs0
+  subst hs0
+  obtain ⟨g, _, pn, hpn⟩ := located_facts I hloc
+  exact ⟨g, by simp [hpn]⟩
+
+/-- a mutating call through a handle of a deleted container (the node or an ancestor is a tombstone) is refused -/
+theorem doc_deleted_container_refused (r : Replica) (d : Doc) (hs : r.state = .doc d) (h : DocInv r) (hd : Ts)
+    (hg : d.garbage hd = true) (c : Call) (hc : PlainDoc.handleOf c = some hd) (hm : isMutating c = true) :
+    ∃ e, (r.call c).2 = .err e := by
+  have _ := h
+  have key : ∀ (K : NKind), ∃ e, d.assertLocal hd K false = some e := by
+    intro K
+    unfold Doc.assertLocal
+    by_cases hk : d.kindOf hd ≠ K
+    · exact ⟨Err.invalidParent, by rw [if_pos hk]⟩
+    · exact ⟨Err.noOp, by rw [if_neg hk]; simp [hg]⟩
+  cases c with
+  | dput h' k v =>
+    simp only [PlainDoc.handleOf, Option.some.injEq] at hc; subst hc
+    obtain ⟨e, he⟩ := key .obj
+    exact ⟨e, by rw [call_of_done (o := .err e) (by rw [hs]; simp [Call.prepare, Call.prepareDoc, he])]⟩
+  | dremove h' k =>
+    simp only [PlainDoc.handleOf, Option.some.injEq] at hc; subst hc
+    obtain ⟨e, he⟩ := key .obj
+    exact ⟨e, by rw [call_of_done (o := .err e) (by rw [hs]; simp [Call.prepare, Call.prepareDoc, he])]⟩
+  | dinsert h' p vs =>
+    simp only [PlainDoc.handleOf, Option.some.injEq] at hc; subst hc
+    obtain ⟨e, he⟩ := key .arr
+    exact ⟨e, by rw [call_of_done (o := .err e) (by rw [hs]; simp [Call.prepare, Call.prepareDoc, he])]⟩
+  | ddelete h' p =>
+    simp only [PlainDoc.handleOf, Option.some.injEq] at hc; subst hc
+    obtain ⟨e, he⟩ := key .arr
+    exact ⟨e, by rw [call_of_done (o := .err e) (by rw [hs]; simp [Call.prepare, Call.prepareDoc, he])]⟩
+  | ddeleteMany h' p n =>
+    simp only [PlainDoc.handleOf, Option.some.injEq] at hc; subst hc
+    obtain ⟨e, he⟩ := key .arr
+    exact ⟨e, by rw [call_of_done (o := .err e) (by rw [hs]; simp [Call.prepare, Call.prepareDoc, he])]⟩
+  | dupdate h' p vs =>
+    simp only [PlainDoc.handleOf, Option.some.injEq] at hc; subst hc
+    obtain ⟨e, he⟩ := key .arr
+    exact ⟨e, by rw [call_of_done (o := .err e) (by rw [hs]; simp [Call.prepare, Call.prepareDoc, he])]⟩
+  | dgetObj h' k => simp [isMutating] at hm
+  | dgetArr h' p n => simp [isMutating] at hm
+  | dvalue h' => simp [isMutating] at hm
+  | inc x => simp [isMutating] at hm
+  | mput k v => simp [isMutating] at hm
+  | mremove k => simp [isMutating] at hm
+  | mget k => simp [isMutating] at hm
+  | msize => simp [isMutating] at hm
+  | linsert p vs => simp [isMutating] at hm
+  | ldelete p => simp [isMutating] at hm
+  | ldeleteMany p n => simp [isMutating] at hm
+  | lupdate p vs => simp [isMutating] at hm
+  | lget p => simp [isMutating] at hm
+  | lgetMany p n => simp [isMutating] at hm
+  | lsize => simp [isMutating] at hm
+
+theorem docInv_calls (cuid : String) (create : Bool) (cs : List Call) (hk : ∀ c ∈ cs, CallKeysND c) :
+    DocInv (cs.foldl (fun r c => (r.call c).1) (Replica.new .document cuid create)) := by
+  have key : ∀ (cs : List Call) (r : Replica), (∀ c ∈ cs, CallKeysND c) → DocInv r →
+      DocInv (cs.foldl (fun r c => (r.call c).1) r) := by
+    intro cs
+    induction cs with
+    | nil => intro r _ h; exact h
+    | cons c cs ih =>
+      intro r hk h
+      exact ih _ (fun c' hc' => hk c' (List.mem_cons_of_mem _ hc')) (docInv_call r c (hk c List.mem_cons_self) h)
+  exact key cs _ hk (docInv_new cuid create)
+
+/-! ### every live node sits at a path -/
+
+theorem locate_append {d : Doc} (σ : List PlainDoc.Seg) {p : Ts} : ∀ (π : List PlainDoc.Seg) (a : Ts),
+    d.locate π a = some p → d.locate (π ++ σ) a = d.locate σ p := by
+  intro π
+  induction π with
+  | nil => intro a h; simp only [Doc.locate, Option.some.injEq] at h; subst h; rfl
+  | cons sg r ih =>
+    intro a h
+    cases sg with
+    | key k =>
+      obtain ⟨n, m, s, ch, h1, h2, h3, h4, h5⟩ := locate_key_inv h
+      simp only [List.cons_append, Doc.locate, findObj_some_iff.mpr ⟨h1, h2⟩, h3, h4, Bool.false_eq_true, if_false]
+      exact ih ch h5
+    | idx i =>
+      obtain ⟨n, sl, s, ch, h1, h2, h3, h5⟩ := locate_idx_inv h
+      simp only [List.cons_append, Doc.locate, DA.findArr_some_iff.mpr ⟨h1, h2⟩, liveChildren_eq h1 h2, h3]
+      exact ih ch h5
+
+theorem has_path_aux {L : OpId} {b : Nat} {d : Doc} (I : DInv L b d) (hkeys : KeysND d) {rk : Ts → Nat}
+    (hr : Ranked d rk) (hb : ∀ c, rk c ≤ d.table.length) : ∀ (f : Nat) (c : Ts) (n : DNode), d.find c = some n →
+    d.table.length < f + rk c → d.isGarbage f c = false → ∃ π, d.locate π Ts.oldest = some c := by
+  intro f
+  induction f with
+  | zero => intro c n _ h; have := hb c; omega
+  | succ f ih =>
+    intro c n hf hlt hg
+    simp only [Doc.isGarbage, hf, Bool.or_eq_false_iff] at hg
+    obtain ⟨hg1, hg2⟩ := hg
+    have hlive : n.d = none := by
+      cases hd : n.d with
+      | none => rfl
+      | some t => rw [hd] at hg1; simp at hg1
+    rcases I.linked c n hf hlive with e | ⟨p, pn, h1, h2, h3⟩
+    · exact ⟨[], by rw [e]; rfl⟩
+    · rw [h1] at hg2
+      simp only at hg2
+      have hrk := hr p pn h2 c h3
+      obtain ⟨π, hπ⟩ := ih p pn h2 (by omega) hg2
+      have htomb : d.isTomb c = false := by simp [Doc.isTomb, hf, hlive]
+      cases hk : pn.kind with
+      | elem v => rw [hk] at h3; simp [kids] at h3
+      | obj m s =>
+        rw [hk] at h3
+        obtain ⟨x, hx, hxc⟩ := List.mem_map.mp h3
+        have hfind : alFind x.1 m = some c := by
+          rw [← hxc]
+          exact alFind_of_mem x.1 x.2 m (hkeys p pn m s h2 hk) hx
+        refine ⟨π ++ [.key x.1], ?_⟩
+        rw [locate_append _ π _ hπ]
+        simp only [Doc.locate, findObj_some_iff.mpr ⟨h2, hk⟩, hfind, htomb, Bool.false_eq_true, if_false]
+      | arr sl s =>
+        rw [hk] at h3
+        obtain ⟨x, hx, hxc⟩ := List.mem_map.mp h3
+        have hmem : c ∈ (sl.filter (slotLive d)).map (·.2) := by
+          refine List.mem_map.mpr ⟨x, List.mem_filter.mpr ⟨hx, ?_⟩, hxc⟩
+          simp [slotLive, hxc, htomb]
+        obtain ⟨i, hi⟩ := List.getElem?_of_mem hmem
+        refine ⟨π ++ [.idx i], ?_⟩
+        rw [locate_append _ π _ hπ]
+        simp only [Doc.locate, DA.findArr_some_iff.mpr ⟨h2, hk⟩, liveChildren_eq h2 hk, hi]
+
+/-- every live (non-garbage) node of the table sits at some path -/
+theorem doc_live_handle_has_path (r : Replica) (d : Doc) (hs : r.state = .doc d) (h : DocInv r) (hd : Ts) (n : DNode)
+    (hf : d.find hd = some n) (hg : d.garbage hd = false) : ∃ π, d.locate π Ts.oldest = some hd := by
+  obtain ⟨d0, hs0, I, hkeys⟩ := h
+  rw [hs] at hs0
+  simp only [DState.doc.injEq] at hs0
+  subst hs0
+  obtain ⟨rk, hr, hb⟩ := (I.dg hkeys).rank
+  exact has_path_aux I hkeys hr hb (d.table.length + 1) hd n hf (by omega) hg
+
+/-! ## 7. non-vacuity: a nested document, a handle below an array, a call through it -/
+
+namespace Ex
+
+/-- a fresh document in which `{"a": [1, {"x": 5}]}` was put -/
+def r : Replica :=
+  ((Replica.new .document "c" true).call (.dput Ts.oldest "a" (.arr [.num 1, .obj [("x", .num 5)]]))).1
+
+/-- the handle of the inner object `{"x": 5}` -/
+def hd : Ts := ⟨0, 2, "c", 2⟩
+
+def d : Doc := ⟨[
+  ⟨Ts.oldest, none, none, .obj [("a", ⟨0, 2, "c", 0⟩)] 1⟩,
+  ⟨⟨0, 2, "c", 0⟩, none, some Ts.oldest, .arr [(⟨0, 2, "c", 1⟩, ⟨0, 2, "c", 1⟩), (⟨0, 2, "c", 2⟩, ⟨0, 2, "c", 2⟩)] 2⟩,
+  ⟨⟨0, 2, "c", 1⟩, none, some ⟨0, 2, "c", 0⟩, .elem (.num 1)⟩,
+  ⟨⟨0, 2, "c", 2⟩, none, some ⟨0, 2, "c", 0⟩, .obj [("x", ⟨0, 2, "c", 3⟩)] 1⟩,
+  ⟨⟨0, 2, "c", 3⟩, none, some ⟨0, 2, "c", 2⟩, .elem (.num 5)⟩]⟩
+
+theorem r_state : r.state = .doc d := rfl
+
+theorem r_inv : DocInv r :=
+  docInv_call _ _ (by simp [CallKeysND, JKeysND, JKeysNDList, JKeysNDKvs]) (docInv_new "c" true)
+
+theorem hd_located : d.locate [.key "a", .idx 1] Ts.oldest = some hd := by decide
+
+/-- `doc_call_refines` instantiated: putting "y" through the handle of the inner object -/
+example : ∃ d', (r.call (.dput hd "y" (.str "s"))).1.state = .doc d' ∧
+    d'.view.canon = (PlainDoc.step d.view.canon [.key "a", .idx 1] (.dput hd "y" (.str "s"))).1 ∧
+    PlainDoc.outCanon (r.call (.dput hd "y" (.str "s"))).2 =
+      (PlainDoc.step d.view.canon [.key "a", .idx 1] (.dput hd "y" (.str "s"))).2 :=
+  doc_call_refines r d r_state r_inv [.key "a", .idx 1] hd hd_located (.dput hd "y" (.str "s")) rfl
+    (by simp [CallKeysND, JKeysND])
+
+/-- … and what the plain tree says in this instance -/
+example : PlainDoc.step d.view.canon [.key "a", .idx 1] (.dput hd "y" (.str "s")) =
+    (.obj [("a", .arr [.num 1, .obj [("x", .num 5), ("y", .str "s")]])], .ok (.val none)) := by rfl
+
+/-- the other theorems on the same instance: the located handle is not garbage, and a mutating call through the
+    handle of a deleted container is refused -/
+example : d.garbage hd = false ∧ (d.find hd).isSome :=
+  doc_located_not_garbage r d r_state r_inv [.key "a", .idx 1] hd hd_located
+
+end Ex
 
 end Orda.DP
